@@ -122,3 +122,84 @@ def stmt_columns(sm):
         if p.column and (st.kind != 'select' or (st.select is not None and len(st.select.tables) == 1)):
             cols.append(p.column)
     return [c for c in cols if c and not c.startswith(effects.HOLE)]
+
+
+def _is_engagement_test(cond, pid):
+    """cond tests only whether the optional parameter `pid` holds a value: `p`, `!p`,
+    `p.has_value()`, `p == nullopt`, `p != nullopt` (any of these wrapped in casts/parens)."""
+    x = cond
+    while x is not None and x.get('kind') in ('ImplicitCastExpr', 'ParenExpr', 'ExprWithCleanups',
+                                              'CXXFunctionalCastExpr', 'CStyleCastExpr'):
+        c = children(x)
+        x = c[0] if c else None
+    if x is None:
+        return False
+    k = x.get('kind')
+    if k == 'UnaryOperator' and x.get('opcode') == '!':
+        return _is_engagement_test(children(x)[0], pid)
+    if k == 'DeclRefExpr':
+        return (x.get('referencedDecl') or {}).get('id') == pid
+    if k == 'CXXMemberCallExpr':
+        callee = strip(children(x)[0])
+        if callee.get('kind') == 'MemberExpr' and callee.get('name') in ('operator bool', 'has_value'):
+            return _is_engagement_test(children(callee)[0], pid)
+        return False
+    if k in ('CXXOperatorCallExpr', 'BinaryOperator', 'CXXRewrittenBinaryOperator'):
+        c = children(x)
+        ops = c[1:] if k == 'CXXOperatorCallExpr' else c
+        if k == 'CXXRewrittenBinaryOperator' and c:
+            return _is_engagement_test(c[0], pid)
+        if len(ops) == 2:
+            def is_nullopt(n):
+                return 'nullopt' in (strip(n, explicit=True).get('type') or '') or \
+                    (strip(n, explicit=True).get('referencedDecl') or {}).get('name') == 'nullopt'
+            a, b = ops
+            if is_nullopt(b):
+                return _is_engagement_test(a, pid)
+            if is_nullopt(a):
+                return _is_engagement_test(b, pid)
+    return False
+
+
+def optional_lifts(prog, chk, rid, min_instances=4):
+    """The util helpers that lift a conversion over std::optional (optional<A> -> optional<B>) sit
+    between nullable columns and optional fields on both the write and the read side.  They
+    round-trip every stored value only if the result is engaged exactly when the argument is:
+    every branch condition in their body must be an engagement test of the parameter, never a
+    test of the value (`*p != 0` turns a stored 0 into 'not set')."""
+    n = 0
+    for f in prog.functions.values():
+        if f.body is None or f.is_pattern or not prog.in_repo(f.file) or len(f.params) != 1:
+            continue
+        if not (f.qualname or '').startswith('djinterop::util::'):
+            continue
+        pt = (f.params[0].get('type') or '')
+        if 'optional<' not in pt or 'optional<' not in (f.ret or ''):
+            continue
+        n += 1
+        pid = f.params[0].get('id')
+        conds = []
+        for x in walk(f.body):
+            k = x.get('kind')
+            c = children(x)
+            if k == 'IfStmt' and c:
+                cs = [y for y in c if y.get('kind') not in ('DeclStmt',)]
+                conds.append(cs[0])
+            elif k == 'ConditionalOperator' and c:
+                conds.append(c[0])
+            elif k in ('WhileStmt', 'DoStmt', 'ForStmt', 'SwitchStmt'):
+                conds.append(None)
+        short = '%s %s' % ((f.qualname or '').replace('djinterop::', ''), f.type)
+        bad = [c for c in conds if c is None or not _is_engagement_test(c, pid)]
+        if conds and not bad:
+            chk.ok(rid, '%s: engaged result iff engaged argument (%d engagement test(s), no test of the value)' % (
+                short, len(conds)), locstr(f.node))
+        elif not conds:
+            chk.unknown(rid, short, 'no branch found in an optional-lifting helper: its shape is not the one modelled')
+        else:
+            chk.violation(rid, '%s|value-dependent engagement' % short, locstr(bad[0]) if bad[0] is not None else locstr(f.node),
+                          '%s decides whether its result holds a value by something other than whether its '
+                          'argument does: some stored values are read back as "not set" (or the reverse), so a '
+                          'column written through the inverse helper does not come back as written' % short)
+    if n < min_instances:
+        chk.fail_broken('%s: only %d optional-lifting util helper(s) found (expected >= %d)' % (rid, n, min_instances))
